@@ -336,6 +336,49 @@ def renamed_layouts(_=None) -> Dict[str, Any]:
     return {"problems": problems, "stats": {"renamed_cases": n}}
 
 
+def metadata_variants(_=None) -> Dict[str, Any]:
+    """(f) what a definition file says about itself (metadata of a combined / generated file, in the root or in an imported file)
+    has no bearing on layout rules: the same definitions get the same verdict and the same padding"""
+    problems = []
+    n = 0
+    d = core.scratch_dir("c11m")
+    mis = {"struct_defs": {"SO": {"fields": {"a": "int8", "b": "double", "c": "int16"}}},
+           "message_defs": {"MO": {"id": 4600, "fields": {"x": "int8", "s": "SO", "y": "double", "z": "char[3]"}}, "MT_": {"id": 4601, "fields": {"d": "double", "i": "int32"}}}}
+    metas = {"none": None, "autogenerated": {"AUTOGENERATED": "true", "COMPILED_PYRTMA_VERSION": "2.3.5"}, "other": {"AUTHOR": "x"}}
+    try:
+        ref = None
+        for where in ("root", "imported", "importer"):
+            for mname, meta in metas.items():
+                for auto_pad in (True, False):
+                    if where == "root":
+                        files = {"root.yaml": {**({"metadata": meta} if meta else {}), **mis}}
+                    elif where == "imported":
+                        # the definitions live in a generated file that a hand-written root imports
+                        files = {"root.yaml": {"imports": ["gen.yaml"], "constants": {"Q": 1}}, "gen.yaml": {**({"metadata": meta} if meta else {}), **mis}}
+                    else:
+                        # a generated file is imported first; the hand-written definitions come after it
+                        files = {"root.yaml": {"imports": ["gen.yaml"], **mis}, "gen.yaml": {**({"metadata": meta} if meta else {}), "constants": {"Q": 1}}}
+                    root = defx.Program(files).write(d)
+                    n += 1
+                    try:
+                        p = defx.parse_model(root, import_coredefs=False, auto_pad=auto_pad)
+                        got = ("accepted", tuple((nm, dd.size, tuple(f.name for f in dd.fields)) for coll in (p.struct_defs, p.message_defs) for nm, dd in sorted(coll.items())))
+                    except Exception as e:
+                        got = (type(e).__name__,)
+                    key = auto_pad
+                    if where == "root" and mname == "none":
+                        ref = ref or {}
+                        ref[key] = got
+                    elif got != ref[key]:
+                        problems.append({"kind": "layout-depends-on-metadata", "where": where, "metadata": mname, "auto_pad": auto_pad, "got": str(got)[:200], "without_metadata": str(ref[key])[:200]})
+    finally:
+        core.rmtree(d)
+    # sanity of the reference itself: padding on -> accepted with padding fields; padding off -> refused
+    if ref and (ref[True][0] != "accepted" or not any("padding_" in f for _n, _s, fs in ref[True][1] for f in fs) or ref[False][0] == "accepted"):
+        problems.append({"kind": "layout-reference-unexpected", "got": str(ref)[:300]})
+    return {"problems": problems, "stats": {"metadata_cases": n}}
+
+
 def cli_options(_=None) -> Dict[str, Any]:
     """compiler_options written in the definition file must reach the parser when the command line entry point is used"""
     import contextlib
@@ -405,6 +448,7 @@ def run(tier: str) -> int:
     res.append(size_boundaries())
     res.append(cli_options())
     res.append(renamed_layouts())
+    res.append(metadata_variants())
     core.close_pool()
     totals: Dict[str, int] = {}
     for r in res:
@@ -416,7 +460,7 @@ def run(tier: str) -> int:
     chk.sample({"sequence": list(seqs[0]), "fields": fields_of(seqs[0]), "reference": reference_layout(seqs[0])})
     chk.sample({"sequence": list(seqs[-1]), "fields": fields_of(seqs[-1]), "reference": reference_layout(seqs[-1])})
     chk.assumptions += ["gcc (x86-64 SysV) layout is the ground truth for C", "ctypes layout for Python", "import_coredefs off (layout code is independent of the core definitions)"]
-    return chk.finish({"evaluations": totals.get("cases", 0) * 2 + totals.get("size_cases", 0) + totals.get("renamed_cases", 0), "distinct_nontrivial": totals.get("padded", 0)})
+    return chk.finish({"evaluations": totals.get("cases", 0) * 2 + totals.get("size_cases", 0) + totals.get("renamed_cases", 0) + totals.get("metadata_cases", 0), "distinct_nontrivial": totals.get("padded", 0)})
 
 
 def replay(case) -> int:
@@ -425,6 +469,8 @@ def replay(case) -> int:
         r = cli_options()
     elif "earlier-compilation" in p.get("kind", ""):
         r = renamed_layouts()
+    elif "metadata" in p.get("kind", "") or p.get("kind") == "layout-reference-unexpected":
+        r = metadata_variants()
     elif "seq" not in p:
         r = size_boundaries()
     else:
